@@ -1,16 +1,16 @@
 CONSTANTS
   Req <- Req3
-  Prio <- PrioB
-  Ttl <- TtlB
+  Prio <- PrioA
+  Ttl <- TtlD
   Quota = 1
   W = 2
-  QSize = 1
+  QSize = 2
   MaxNow = 6
   KF_C10_LostHandoff = FALSE
-  TtlPeek = FALSE
-  Driver = FALSE
+  TtlPeek = TRUE
+  Driver = TRUE
   KeepHist = TRUE
 SPECIFICATION Spec
-VIEW View
-INVARIANTS CxPOk CxNoStrand PerWindow SizeBound
+VIEW ViewD
+INVARIANTS CxPOk
 CHECK_DEADLOCK FALSE
